@@ -4,6 +4,7 @@ Request: {"m": "<model>", …model-specific fields…}.  Reply: {"ok": <value>} 
 The handlers call the same definitions the theorems in LianVerif/Properties are about.
 -/
 import LianVerif.Drv.PathStore
+import LianVerif.Drv.Taint
 
 open Lean LianVerif.Drv
 
@@ -11,6 +12,8 @@ def dispatch (j : Json) : Except String Json := do
   let m ← getStr (← field j "m")
   match m with
   | "pathstore" => LianVerif.Drv.PathStore.handle j
+  | "taint" => LianVerif.Drv.Taint.handle j
+  | "taintrules" => LianVerif.Drv.Taint.handleRules j
   | _ => throw s!"unknown model {m}"
 
 partial def loop (hin hout : IO.FS.Stream) : IO Unit := do
